@@ -3193,8 +3193,16 @@ impl Block {
         let mut new_slips_map = std::collections::HashMap::new();
         let transactions_valid = self.transactions.iter().all(|tx: &Transaction| -> bool {
             let valid_tx = tx.validate(utxoset, blockchain, validate_against_utxo);
+            if !valid_tx {
+                error!(
+                    "transaction {:?} in block {} does not validate",
+                    tx.signature.to_hex(),
+                    self.id
+                );
+                return false;
+            }
             // validate double-spend inputs
-            if valid_tx && tx.transaction_type != TransactionType::Fee {
+            if tx.transaction_type != TransactionType::Fee {
                 for input in tx.from.iter() {
                     if input.amount == 0 || input.slip_type == SlipType::Bound {
                         continue;
